@@ -624,7 +624,17 @@ func (s vsSecret) obj() client.Object {
 	sec := &apiv1.Secret{ObjectMeta: metav1.ObjectMeta{Namespace: s.NS, Name: s.Name}, Type: apiv1.SecretTypeTLS,
 		Data: map[string][]byte{apiv1.TLSCertKey: kp[0], apiv1.TLSPrivateKeyKey: kp[1]}}
 	if !s.OK {
-		sec.Data[apiv1.TLSCertKey] = []byte("not a certificate")
+		// not usable for a listener in one of two ways, fixed per Secret: the certificate does not parse, or the key pair is
+		// fine and the Secret is of the wrong type
+		h := 0
+		for _, c := range s.NS + "/" + s.Name {
+			h = (h*131 + int(c)) % 1000003
+		}
+		if h%2 == 0 {
+			sec.Data[apiv1.TLSCertKey] = []byte("not a certificate")
+		} else {
+			sec.Type = apiv1.SecretTypeOpaque
+		}
 	}
 	return sec
 }
